@@ -581,7 +581,13 @@ class ByteVec:
 
         # aligned write, just overwrite the existing chunk
         # length is unchanged, so we can return early
-        if start == first_chunk.start and stop == first_chunk.end:
+        # (a ByteVec value takes the general path below, which copies its chunks:
+        # storing the ByteVec object itself as a chunk would alias it)
+        if (
+            start == first_chunk.start
+            and stop == first_chunk.end
+            and not isinstance(value, ByteVec)
+        ):
             self.__set_chunk(first_chunk.start, value)
             return
 
